@@ -619,6 +619,16 @@ func (i *interpreter) deepEq(x, y value) *smt.Term {
 			acc = C.And(acc, i.deepEq(x[j], ys[j]))
 		}
 		return acc
+	case tuple:
+		yt, ok := y.(tuple)
+		if !ok || len(yt) != len(x) {
+			return C.False()
+		}
+		acc := C.True()
+		for j := range x {
+			acc = C.And(acc, i.deepEq(x[j], yt[j]))
+		}
+		return acc
 	case *value:
 		yp, ok := y.(*value)
 		if !ok {
